@@ -15,18 +15,18 @@ def run(ctx):
         fixclip = False
     srv_ms = [24, 25, 128, 4096, 8216] + ([] if q else [64, 1048600])
     cli_ms = [0, 1, 23, 24, 25, 127, 128, 129, 4095, 4096, 4097, 8216, 65536, 1048600, 1048601, 2 ** 31 - 1, 2 ** 31, 2 ** 32 - 1]
-    versions = ["9P2000", "9P2000.u", "9P1999", "9P2000.L", ""]
+    versions = ["9P2000", "9P2000.u", "9P1999", "9P2000.L", "", "9P2000.u2", "9P2000.ufoo", "9P2000.U"]
     announce = [0, 1, 6, 7, 8, 23, 24]     # plus msize-1, msize, msize+1, 2^31, 2^32-1 per case
     # 1. the model: min / refusal / dialect / frames within msize with recycled buffers, exhaustively for small steps
     c = dict(SrvMsizes={24, 128, 8192}, CliMsizes={0, 23, 24, 25, 127, 128, 129, 8192, 8193, 1048600, 2147483647},
-             Versions={"9P2000", "9P2000.u", "9P1999"}, Needs={7, 24, 25, 128, 129, 200, 8192},
+             Versions={"9P2000", "9P2000.u", "9P1999", "9P2000.u2"}, Needs={7, 24, 25, 128, 129, 200, 8192},
              Announce={0, 6, 7, 24, 128, 129, 8193, 2147483647}, FixClip=fixclip, MaxSteps=4 if q else 5)
     ctx.write_cfg("c12_nego.cfg", c, invariants=["TypeOK", "FrameWithinMsize", "MsizeOnlyShrinks", "MsizeCarriesHeader", "DialectNeedsBoth"])
     r = ctx.tlc_must_pass("Nego", "c12_nego.cfg", timeout=900, name="nego")
     # 2. the grid on the real server
     grid = list(itertools.product(srv_ms, [False, True], cli_ms, versions))
     if q:
-        must = [g for g in grid if g[3] in ("9P2000", "9P2000.u") and g[2] in (23, 24, 128, 2 ** 32 - 1)]
+        must = [g for g in grid if g[3] in ("9P2000", "9P2000.u", "9P2000.u2") and g[2] in (23, 24, 128, 2 ** 32 - 1)]
         rest = [g for g in grid if g not in must]
         grid = must + rng.sample(rest, 140)
     cases = []
